@@ -20,6 +20,7 @@ Statement oracle at every step: the repository-level answer agrees with the type
 (g_typelib_get_dir_entry_by_*) of the typelibs loaded AT THAT MOMENT; the Lean state machine
 (c14.history) is run on the same history and compared.  A failing history is shrunk.
 """
+import concurrent.futures
 import json
 import os
 import random
@@ -1023,7 +1024,8 @@ def build_world(recipe):
                 entries.append({'k': 'function', 'name': nm})
                 continue
             e = {'k': rng.choice(HIST_KINDS), 'name': nm}
-            if rng.random() < 0.85:
+            must = e['k'] in ('class', 'interface')          # the compiler insists on glib:type-name for these
+            if must or rng.random() < 0.85:
                 style = rng.random()
                 if style < 0.45 and pool:
                     g = pool.pop()
@@ -1034,6 +1036,9 @@ def build_world(recipe):
                 else:
                     g = rng.choice(['Other', 'Xy', 'g']) + (camel(nm) or 'X')
                 g = ''.join(c for c in g if c.isalnum() or c == '_')
+                if must and (len(g) < 3 or g in [x.get('gtype') for x in entries]):
+                    g = '%sT%d%s' % (cprefix.split(',')[0], i, camel(nm) or 'X')
+                    g = ''.join(c for c in g if c.isalnum() or c == '_')
                 if len(g) >= 3 and g not in [x.get('gtype') for x in entries]:
                     e['gtype'] = g
                     used_g.append(g)
@@ -1368,8 +1373,9 @@ def judge_history(world, ops, real):
     return fails, stats, notes
 
 
-def model_history(ctx, world, ops, real, tl_dumps):
-    """the Lean state machine on the same history -> list of (real step index, model answer, tables)"""
+def model_request(world, ops):
+    """the request that runs the Lean state machine on the same history, and for every model call the
+    index of the real call it belongs to (a non-lazy load is one registration per dependency + itself)"""
     nss = [n['ns'] for n in world['namespaces']]
     by_ns = dict((n['ns'], n) for n in world['namespaces'])
     libs = []
@@ -1395,8 +1401,7 @@ def model_history(ctx, world, ops, real, tl_dumps):
         else:
             mops.append(['g' if op[0] == 'G' else 'd', op[1]])
             owner.append(i)
-    out = ctx.driver.call('c14.history', libs=libs, ops=mops)
-    return list(zip(owner, mops, out))
+    return {'op': 'c14.history', 'libs': libs, 'ops': mops}, owner, mops
 
 
 def compare_model(world, ops, real, model):
@@ -1478,9 +1483,8 @@ def world_key(recipe):
     return {k: recipe[k] for k in sorted(recipe)}
 
 
-def check_history(ctx, htools, cnt, world, workdir, ops, tag, state, samples=None):
-    """one history: real run, statement oracle, model comparison.  Returns the number of judged calls."""
-    real = run_history(htools, world, workdir, ops, tag)
+def check_history(ctx, htools, cnt, world, workdir, ops, real, model_out, state, samples=None):
+    """one history: statement oracle on the real run, model comparison.  Returns the number of judged calls."""
     recipe = world['recipe']
     cnt.hit('history:run')
     cnt.hit('history-build:' + str(real.get('mode')))
@@ -1517,19 +1521,14 @@ def check_history(ctx, htools, cnt, world, workdir, ops, tag, state, samples=Non
     elif fails:
         cnt.hit('history:more-failing-histories(not shrunk)')
     # ---- the Lean state machine on the same history
-    try:
-        model = model_history(ctx, world, ops, real, None)
-        diffs, compared = compare_model(world, ops, real, model)
+    if model_out is not None:
+        diffs, compared = compare_model(world, ops, real, model_out)
         cnt.hit('hist:model-compared-calls', compared)
         for d in diffs[:1]:
             if state['model_diffs'] < 3:
                 state['model_diffs'] += 1
                 ctx.broken.append('correspondence c14.history differs: %s world=%r history=%r'
                                   % (d, world_key(recipe), ops))
-    except HarnessError as e:
-        if state['model_diffs'] < 3:
-            state['model_diffs'] += 1
-            ctx.broken.append('correspondence c14.history: the model driver failed: %s' % str(e)[:300])
     if samples is not None and len(samples) < 2:
         samples.append({'world': world_key(recipe), 'history(first 12 calls)': ops[:12],
                         'real(first 12)': [s.get('repo', s.get('detail')) for s in real['steps'][:12]]})
@@ -1563,8 +1562,20 @@ def run_histories(ctx, tools, cnt, corpus_hist, samples):
             if 'wseed' in recipe or not hists:
                 for _ in range(nhist):
                     hists.append(gen_history(world, hrng, length))
-            for k, ops in enumerate(hists):
-                total += check_history(ctx, htools, cnt, world, workdir, ops, '%d-%d' % (w, k), state, samples)
+            with concurrent.futures.ThreadPoolExecutor(max_workers=4) as ex:
+                reals = list(ex.map(lambda ko: run_history(htools, world, workdir, ko[1], '%d-%d' % (w, ko[0])),
+                                    enumerate(hists)))
+            reqs = [model_request(world, ops) for ops in hists]
+            try:
+                outs = ctx.driver.batch([r[0] for r in reqs])
+            except HarnessError as e:
+                outs = [None] * len(hists)
+                if state['model_diffs'] < 3:
+                    state['model_diffs'] += 1
+                    ctx.broken.append('correspondence c14.history: the model driver failed: %s' % str(e)[:300])
+            for ops, real, (req, owner, mops), out in zip(hists, reals, reqs, outs):
+                model_out = list(zip(owner, mops, out)) if out is not None else None
+                total += check_history(ctx, htools, cnt, world, workdir, ops, real, model_out, state, samples)
         finally:
             shutil.rmtree(workdir, ignore_errors=True)
     return total
